@@ -8,6 +8,12 @@ BASE_NOTE = "Trusted base: Go 1.26.8 toolchain (testing/synctest for the virtual
 
 # property -> (technique, level text, design ref, extra note)
 CLAIMED = {
+ "C12": ("life-cycle monitor (verif pool hook: state machine, poison on release, verification on re-acquisition and end-of-run sweep) over generated mixed scenarios between two endpoints with 2-8 object pools; application-side snapshots",
+         "4k (quick) / 150k (thorough) generated histories with faults, cancellations, slow handlers and concurrency; every acquire/release of both pools is observed, so a double release or a write after release anywhere on an executed path is detected deterministically; content stability of messages the application holds is compared after the pool was churned.",
+         "DESIGN.md 3/C12", "Only paths that the generated scenarios execute are covered; pure reads after release are invisible unless they surface as changed content."),
+ "C13": ("model of table sizes over generated exchange histories in a synctest bubble (verif size accessors), 300 virtual seconds of idle housekeeping before the read-out",
+         "6k (quick) / 150k (thorough) histories of up to 12 exchanges of every kind with abnormal endings (silence, cancellation, slow handler, faults); after the idle phase every per-exchange table of both connections must be empty or equal the number of live observations.",
+         "DESIGN.md 3/C13", ""),
  "C04": ("fault-tape search in a synctest bubble between two library endpoints (datagram and stream/BERT), exhaustive SZX x boundary-size grid, position-dependent bodies as round-trip oracle",
          "Fault-free grid over every SZX pair x body sizes at block boundaries +-1 (datagram) and SZX/BERT x max-message-size pairs (stream), plus 10k (quick) / 300k (thorough) generated scenarios with per-direction fault tapes (drop, duplicate, re-order, replay), concurrent transfers, one-way writes and block-wise notifications; every body that reaches an application or a caller must equal a complete original, exactly once for a successful block-wise upload.",
          "DESIGN.md 3/C04", "Completion is only required on the fault-free grid with symmetric message-size limits."),
